@@ -159,34 +159,31 @@ Proof.
   rewrite (H x (or_introl eq_refl)), IH; [reflexivity|]. intros y Hy. apply H. right. exact Hy.
 Qed.
 
-Lemma key_match_spec ty v p :
-  pat_nospace p = true -> match_pat (Leaf ty v) p = key_match (kap0 ty v) p.
+Lemma key_match_spec ty v p : match_pat (Leaf ty v) p = key_match (kap0 ty v) p.
 Proof.
-  intros Hp. unfold match_pat, key_match, kap0, skey, is_kw_tok. cbn [fst snd]. f_equal.
-  unfold pat_nospace in Hp. destruct (snd p) as [vals|]; [|reflexivity].
+  unfold match_pat, key_match, kap0, skey, is_kw_tok. cbn [fst snd]. f_equal.
+  destruct (snd p) as [vals|]; [|reflexivity].
   destruct (tin ty T_Keyword); [|reflexivity].
-  apply existsb_ext_in. intros w Hw. apply in_map_iff in Hw. destruct Hw as (w0 & <- & Hw0).
-  rewrite forallb_forall in Hp. specialize (Hp w0 Hw0). apply negb_true_iff in Hp.
-  unfold kw_key. symmetry. apply eqb_collapse_self, Hp.
+  unfold knorm, kw_key, collapse, join_split.
+  rewrite (js_collapse_go (upper v) JsStart false) by discriminate. reflexivity.
 Qed.
 
-Lemma kd0_spec c ty v :
-  nospace_cls c = true -> is_ws (Leaf ty v) = false -> kind_of c (Leaf ty v) = kd0 c (kap0 ty v).
+Lemma kd0_spec c ty v : is_ws (Leaf ty v) = false -> kind_of c (Leaf ty v) = kd0 c (kap0 ty v).
 Proof.
-  intros Hn W. unfold kind_of, kd0. rewrite W. cbn [is_group andb]. unfold matches.
-  unfold nospace_cls in Hn. rewrite forallb_app in Hn. apply andb_true_iff in Hn. destruct Hn as [Ho Hc].
+  intros W. unfold kind_of, kd0. rewrite W. cbn [is_group andb]. unfold matches.
   rewrite (existsb_ext_in (match_pat (Leaf ty v)) (key_match (kap0 ty v)) (m_open c)).
-  2:{ intros p Hp. apply key_match_spec. rewrite forallb_forall in Ho. apply Ho, Hp. }
+  2:{ intros p Hp. apply key_match_spec. }
   rewrite (existsb_ext_in (match_pat (Leaf ty v)) (key_match (kap0 ty v)) (m_close c)).
-  2:{ intros p Hp. apply key_match_spec. rewrite forallb_forall in Hc. apply Hc, Hp. }
+  2:{ intros p Hp. apply key_match_spec. }
   reflexivity.
 Qed.
 
+(* every class -- If ('END IF') and For ('END LOOP') included since Token.normalized collapses the white
+   space inside compound keywords (fix in /repo; before, this needed nospace_cls c = true) *)
 Theorem C11_group_matching c n n' :
-  nospace_cls c = true ->
   shape n = shape n' -> shape (stack_match_rec c n) = shape (stack_match_rec c n').
 Proof.
-  intros Hn. apply (group_matching_shape_inv kap0 c (kd0 c)). intros ty v W. apply kd0_spec; assumption.
+  apply (group_matching_shape_inv kap0 c (kd0 c)). intros ty v W. apply kd0_spec; assumption.
 Qed.
 
 (* Parenthesis, SquareBrackets, Case, Begin (and the classes without M_OPEN/M_CLOSE) qualify;
@@ -217,17 +214,17 @@ Proof. unfold statement_of, mk_grp, shape. rewrite ashape_grp. fold shapes. rewr
 (* skeleton-related streams: the same statements, and after any bracket-matching pass whose
    M_OPEN/M_CLOSE contain no whitespace, trees of the same shape *)
 Theorem C11_split_then_match c l l' :
-  nospace_cls c = true -> skelb l l' = true ->
+  skelb l l' = true ->
   map (fun s => shape (stack_match_rec c (statement_of s)))
       (process reset_sstate change_splitlevel eos_ttypes is_terminator l)
   = map (fun s => shape (stack_match_rec c (statement_of s)))
         (process reset_sstate change_splitlevel eos_ttypes is_terminator l').
 Proof.
-  intros Hc H. apply split_skelb_invariant in H. unfold stmt_sigs in H.
+  intros H. apply split_skelb_invariant in H. unfold stmt_sigs in H.
   revert H. generalize (process reset_sstate change_splitlevel eos_ttypes is_terminator l).
   generalize (process reset_sstate change_splitlevel eos_ttypes is_terminator l').
   intros ss'. induction ss' as [|s' ss' IH]; intros [|s ss0] H; cbn [map] in *; try discriminate; [reflexivity|].
   injection H as H1 H2. f_equal; [|apply IH, H2].
-  apply C11_group_matching; [exact Hc|]. rewrite !shape_statement_of, H1. reflexivity.
+  apply C11_group_matching. rewrite !shape_statement_of, H1. reflexivity.
 Qed.
 Print Assumptions C11_split_then_match.
